@@ -99,7 +99,7 @@ ENT = ("(p.user_id == s.user_id and HA(process_unit, p.user_roles) and ("
 ENTU = ENT.replace("s.user_id", "u")
 get_for_topic = Contract(
     target=W + "_get_subscriptions_for_topic", types=dict(TYPES, webpush_repo="WebPushRepository"), raises={},
-    calls={"webpush_repo.get_notification_preferences_for_topic": get_prefs, "webpush_repo.get_subscriptions": get_subs,
+    calls={"*.get_notification_preferences_for_topic": get_prefs, "*.get_subscriptions": get_subs,
            "has_access": has_access_call},
     ensures=[             ("lemma:queried-ids-are-entitled-users", f"all(any({ENTU} for p in ghost('prefs')) for u in ghost('ids'))"),
              ("every-returned-subscription-belongs-to-an-entitled-user",
